@@ -384,7 +384,13 @@ def _getattr(E, path, fv, args, kwargs, frame):
         return getattr_symbolic_name(E, path, o, name, args[2:] and (args[2],))
     if not isinstance(name, str):
         raise Unsupported("getattr with non-string name")
-    r = getattr_value(E, path, o, name, frame)
+    try:
+        r = getattr_value(E, path, o, name, frame)
+    except Raised as ex:
+        # getattr(o, name, default): an AttributeError of the lookup itself selects the default
+        if len(args) == 3 and getattr(ex.exc, "name", "").endswith("AttributeError") and ex.exc.args[:1] == (name,):
+            return args[2]
+        raise
     if r is MISSING:
         if len(args) == 3:
             return args[2]
